@@ -30,6 +30,9 @@ def gen_history(rng, tier, profile=None):
     profile = profile or {}
     tick = profile.get("tick", rng.choice(TICKS_ALL))
     base = profile.get("base", rng.choice([20, 100, 1000, 12345]))
+    if "base" not in profile and rng.random() < 0.12:
+        # very fine grids relative to the price level: neighbouring ticks differ by 1e-9 .. 1e-11 of the price
+        base = rng.choice([10 ** 9 + 7, 3 * 10 ** 9, 12345678901])
     nlev = rng.randint(1, profile.get("max_levels", 8))
     mode = profile.get("mode") or rng.choice(["continuous", "continuous", "batch", "mixed"])
     long_ = tier == "thorough" and rng.random() < 0.3
@@ -100,6 +103,9 @@ def gen_deep_cancel_history(rng, tier):
     priced inside the resting range (the situations in which a damaged priority structure becomes visible)."""
     tick = rng.choice([1.0, 0.5, 0.1, 10.0])
     base = rng.choice([100, 1000])
+    if rng.random() < 0.1:
+        tick = rng.choice([1.0, 0.01, 1e-5])
+        base = rng.choice([10 ** 9 + 7, 3 * 10 ** 9, 12345678901])
     ops = [["R", True]]
     for _ in range(rng.randint(1, 3)):
         side = rng.random() < 0.5
@@ -119,9 +125,9 @@ def gen_deep_cancel_history(rng, tier):
             for _ in range(rng.randint(1, 2)):
                 r = rng.random()
                 if r < 0.75:
-                    ops.append(["LX", not side, rng.choice([0, 0, 1, 1, 2, 3]), rng.randint(1, 2), 1])
+                    ops.append(["LX", not side, rng.choice([0, 0, 1, 1, 2, 3, 4, 6]), rng.choice([1, 1, 2, 4, 7, 12]), 1])
                 elif r < 0.85:
-                    ops.append(["M", not side, rng.randint(1, 2), None, 1])
+                    ops.append(["M", not side, rng.choice([1, 2, 5, 9]), None, 1])
                 else:
                     lev = base + (-(rng.randint(0, width)) if side else rng.randint(0, width))
                     ops.append(["L", not side, lev * tick, rng.randint(1, 2), rng.choice([None, 2]), 1])
